@@ -30,6 +30,15 @@ def configs(tier):
     return out
 
 
+def composed(tier):
+    comp = []
+    for pre in (['tile2'], ['concat_map'], ['slice_rev'], ['sort'], ['intersperse_map'], ['zip_map'], ['key_zip_map'],
+                ['cache'], ['items'], ['concat_map', 'slice_rev'], ['tile2', ['batch', 2]], ['slice_rev', 'sort']):
+        for n in ((1, 2) if tier == 'quick' else (1, 2, 3)):
+            comp.append(dict(entry='prefetch', n=n, w=2, b=2, backend='t', pre=pre, copy_first=(n == 1)))
+    return comp
+
+
 def static_len(result):
     """len(ds.prefetch(...)) / len(parallel map) equals len(ds)."""
     import lazy_dataset
@@ -66,11 +75,7 @@ def run(tier):
     res.coverage['preemption_bound_completed'] = bound
     # pipelines whose stages are executed concurrently by the workers: every source line of lazy_dataset.core is a
     # scheduling point as well (lazily built per-stage state, e.g. cached key tuples or offsets, is shared by the workers)
-    comp = []
-    for pre in (['tile2'], ['concat_map'], ['slice_rev'], ['sort'], ['intersperse_map'], ['zip_map'], ['key_zip_map'],
-                ['cache'], ['items'], ['concat_map', 'slice_rev'], ['tile2', ['batch', 2]], ['slice_rev', 'sort']):
-        for n in ((1, 2) if tier == 'quick' else (1, 2, 3)):
-            comp.append(dict(entry='prefetch', n=n, w=2, b=2, backend='t', pre=pre, copy_first=(n == 1)))
+    comp = composed(tier)
     _e2.run_matrix('C04', 'oracle_values', [(c, 'D', None) for c in comp], res, 'composed pipelines, mode D')
     _e2.run_matrix('C04', 'oracle_values', [(c, 'L', 1) for c in comp if c['n'] == 2 or tier == 'thorough'], res,
                    'composed pipelines, mode L: every source line of core.py and parallel_utils.py, preemption bound 1',
